@@ -186,6 +186,12 @@ def h_cost_vs_exported(H, net):
     H.ensure('cost:operations-under-hard-selection-equal-the-operation-count-of-the-exported-network', H.eq(c_ops, _metric_on(H, exported, True)))
 
 
+def _same(H, a, b):
+    if isinstance(a, dict):
+        return isinstance(b, dict) and sorted(a.keys()) == sorted(b.keys()) and all(_same(H, a[k], b[k]) for k in a)
+    return H.eq(a, b)
+
+
 def h_export(H, net, training):
     """C03 / C18: for every value of the selection coefficients export() keeps exactly the arg-max branch of every block, the exported network
     computes the hard-selection function of the SuperNet, layers outside the blocks are the same objects with the same state - whatever mode
@@ -230,6 +236,17 @@ def h_export(H, net, training):
     H.observe('kept', names)
     H.ensure('export:exactly-the-arg-max-branches-and-the-fixed-layers-remain', sorted(names) == sorted(expect))
     H.ensure('export:layers-outside-choice-blocks-untouched', H.same_object(dict(exported.named_modules())['head'], user.head))
+    # [C18] the whole-model observers of the wrapper, called after export() and in between each other: summary() twice, str(), get_total_icv()
+    flags_o = [m.training for m in model.modules()]     # (exported.eval() above is the harness's own action on the layers export() shares)
+    s1 = model.summary()
+    str(model)                                   # (the text itself holds floats: not compared)
+    model.get_total_icv()
+    s2 = model.summary()
+    H.ensure('[C18] observers:summary-lists-exactly-the-choice-blocks', sorted(s1.keys()) == sorted(b + '.sn_combiner' for b in blocks))
+    H.ensure('[C18] observers:repeated-summaries-agree', _same(H, s1, s2))
+    H.ensure('[C18] observers:training-mode-of-the-supernet-unchanged', [m.training for m in model.modules()] == flags_o)
+    now = _state_now(user)
+    H.ensure('[C18] observers:parameters-and-statistics-untouched', all(H.eq(H.elements(now[k]), v) for k, v in vals.items()))
     model.eval()
     H.ensure('export:supernet-output-unchanged-by-export', H.eq(model(x), y_hard))
 
@@ -247,7 +264,7 @@ HARNESSES = [
     dict(name='whole-supernet-import', bounded='enumerated architectures (contracts/whole_supernet.py NETS); coefficients, weights, statistics, inputs symbolic', fn='h_import', property=['C07'], functions=_FUNCS,
          quick=[dict(net=n, training=t) for n, t in (('one-block', True), ('twice', True), ('two-blocks', False))],
          thorough=[dict(net=n, training=t) for n in NETS for t in _B], timeout=120),
-    dict(name='whole-supernet-export', bounded='enumerated architectures (contracts/whole_supernet.py NETS); coefficients, weights, statistics, inputs symbolic', fn='h_export', property=['C03', 'C18'], functions=_FUNCS,
+    dict(name='whole-supernet-export', bounded='enumerated architectures (contracts/whole_supernet.py NETS); coefficients, weights, statistics, inputs symbolic', fn='h_export', property=['C03', 'C18'], functions=_FUNCS + [_P + 'supernet.py::SuperNet.summary', _P + 'supernet.py::SuperNet.__str__', _P + 'supernet.py::SuperNet.get_total_icv', _P + 'nn/combiner.py::SuperNetCombiner.summary'],
          quick=[dict(net=n, training=t) for n, t in (('one-block', True), ('twice', True), ('two-blocks', False), ('one-block', False), ('user-blocks', False))],
          thorough=[dict(net=n, training=t) for n in NETS for t in _B], timeout=120),
 ]
